@@ -20,6 +20,7 @@ import (
 	"fmt"
 	"io"
 	"math"
+	"math/big"
 	"net/http"
 	"net/url"
 	"strconv"
@@ -454,6 +455,14 @@ func restDecodeTimeout(timeout string) (time.Duration, error) {
 	if val >= float64(math.MaxInt64)/float64(time.Second) {
 		// beyond what a duration can represent: clamp rather than overflow
 		return time.Duration(math.MaxInt64), nil
+	}
+	if exact, ok := new(big.Rat).SetString(timeout); ok && !strings.Contains(timeout, "/") {
+		// Scale the decimal exactly: in floating point, 1.001 seconds are
+		// 1000999999.9999999 ns, which truncates to a millisecond less.
+		exact.Mul(exact, big.NewRat(int64(time.Second), 1))
+		if nanos := new(big.Int).Quo(exact.Num(), exact.Denom()); nanos.IsInt64() {
+			return time.Duration(nanos.Int64()), nil
+		}
 	}
 	return time.Duration(val * float64(time.Second)), nil
 }
